@@ -245,4 +245,5 @@ PROPS["C04"] = dict(
     rule="~10k (quick) / ~100k (thorough) isolated runs over 20 entry points; non-trivial = inputs that parse (all public operations are then run on the value).",
     assumptions=["the ledger theorem is instantiated on the inputs vector (worst nesting); the other vectors are covered by the same combinator lemmas but not spelled out", "dependencies do not panic on the sampled inputs"],
     gen_items=["CAP"],
+    panic_inventory=True,
 )
